@@ -7,7 +7,7 @@ from collections import defaultdict
 from dataclasses import is_dataclass
 from enum import Enum
 from types import ModuleType
-from typing import Any, Callable, Dict, List, Optional, Tuple, Union, cast
+from typing import Any, Callable, Dict, List, Optional, Set, Tuple, Union, cast
 
 
 def as_literal(p: Union[str, int, float, bool, None]) -> ast.Constant:
@@ -400,19 +400,61 @@ class _resolve_called_lambdas(ast.NodeTransformer):
                 return result
 
         # Not something we can inline - but whatever is inside still has to be looked at
+        if isinstance(node.func, ast.Lambda):
+            # Keyword arguments follow the lambda's parameters if those get new names
+            old_names = [a.arg for a in node.func.args.args]
+            result = self.generic_visit(node)
+            renamed = dict(zip(old_names, [a.arg for a in node.func.args.args]))
+            for k in node.keywords:
+                if k.arg in renamed:
+                    k.arg = renamed[k.arg]
+            return result
         return self.generic_visit(node)
 
-    def _visit_hiding(self, names: List[str], nodes: List[ast.AST]) -> List[Any]:
-        "Visit `nodes` with `names` bound locally: they hide arguments of the same name."
-        self._arg_map_list.append({n: None for n in names})
+    def _names_in_arguments(self) -> Set[str]:
+        "Every name mentioned by an argument that is currently being substituted"
+        return {
+            n.id
+            for arg_map in self._arg_map_list
+            for replacement in arg_map.values()
+            if replacement is not None
+            for n in ast.walk(replacement)
+            if isinstance(n, ast.Name)
+        }
+
+    def _visit_hiding(
+        self, names: List[str], nodes: List[ast.AST]
+    ) -> Tuple[List[str], List[Any]]:
+        """Visit `nodes` with `names` bound locally: they hide arguments of the same name. A
+        local name that is mentioned by an argument we are substituting would capture it, so it
+        is given a new name first. Returns the (possibly new) names and the visited nodes."""
+        used = self._names_in_arguments()
+        taken = used | set(names)
+        taken.update(n.id for node in nodes for n in ast.walk(node) if isinstance(n, ast.Name))
+        new_names: List[str] = []
+        frame: Dict[str, Optional[ast.AST]] = {}
+        for name in names:
+            new_name = name
+            if name in used:
+                i = 1
+                while f"{name}_{i}" in taken:
+                    i += 1
+                new_name = f"{name}_{i}"
+                taken.add(new_name)
+            new_names.append(new_name)
+            frame[name] = None if new_name == name else ast.Name(id=new_name, ctx=ast.Load())
+        self._arg_map_list.append(frame)
         try:
-            return [self.visit(n) for n in nodes]
+            return new_names, [self.visit(n) for n in nodes]
         finally:
             self._arg_map_list.pop()
 
     def visit_Lambda(self, node: ast.Lambda) -> Any:
         "The lambda's own arguments hide the arguments we are substituting"
-        node.body = self._visit_hiding([a.arg for a in node.args.args], [node.body])[0]
+        names, visited = self._visit_hiding([a.arg for a in node.args.args], [node.body])
+        for a, name in zip(node.args.args, names):
+            a.arg = name
+        node.body = visited[0]
         return node
 
     def _visit_comprehension(self, node: Any) -> Any:
@@ -421,8 +463,10 @@ class _resolve_called_lambdas(ast.NodeTransformer):
             return self.generic_visit(node)
         gen = node.generators[0]
         gen.iter = self.visit(gen.iter)
-        names = [n.id for n in ast.walk(gen.target) if isinstance(n, ast.Name)]
-        inside = self._visit_hiding(names, [node.elt] + gen.ifs)
+        targets = [n for n in ast.walk(gen.target) if isinstance(n, ast.Name)]
+        names, inside = self._visit_hiding([n.id for n in targets], [node.elt] + gen.ifs)
+        for n, name in zip(targets, names):
+            n.id = name
         node.elt = inside[0]
         gen.ifs = inside[1:]
         return node
